@@ -173,6 +173,54 @@ func checkC07(ctx *Ctx, c *Case) error {
 			}
 			ctx.Label("typed-nil oneof wrappers")
 		}
+		// views of lists and maps kept across a Clear of their field: reading through
+		// them afterwards is still only reading (what they show is unspecified)
+		if r := model.BuildP(t, d.ProtoReflect()); digest(c.Bytes, "keptviews")%3 == 0 {
+			rm := r.ProtoReflect()
+			type kept struct {
+				fd protoreflect.FieldDescriptor
+				v  protoreflect.Value
+			}
+			var views []kept
+			rm.Range(func(fd protoreflect.FieldDescriptor, v protoreflect.Value) bool {
+				if fd.IsList() || fd.IsMap() {
+					views = append(views, kept{fd, v})
+				}
+				return true
+			})
+			for _, kv := range views {
+				rm.Clear(kv.fd)
+			}
+			if len(views) > 0 {
+				rb := model.Snapshot(r)
+				for _, kv := range views {
+					kv := kv
+					if perr := safely(func() error {
+						if kv.fd.IsMap() {
+							mp := kv.v.Map()
+							k := kv.fd.MapKey().Default().MapKey()
+							_ = mp.Len()
+							_ = mp.Has(k)
+							_ = mp.Get(k)
+							mp.Range(func(protoreflect.MapKey, protoreflect.Value) bool { return true })
+						} else {
+							l := kv.v.List()
+							if l.Len() > 0 {
+								_ = l.Get(0)
+							}
+						}
+						return nil
+					}); perr != nil {
+						ctx.Label("observed, not asserted: reading a view kept across Clear panics")
+						continue
+					}
+					if after := model.Snapshot(r); after != rb {
+						return fmt.Errorf("reading through a %s view of %s that was obtained before the field was cleared changed the message's Go struct: %s", map[bool]string{true: "map", false: "list"}[kv.fd.IsMap()], kv.fd.Name(), diffStr(after, rb))
+					}
+				}
+				ctx.Label("views kept across Clear read")
+			}
+		}
 		p := model.BuildP(t, d.ProtoReflect())
 		other := model.BuildP(t, d.ProtoReflect())
 		before := model.Snapshot(p)
